@@ -164,6 +164,8 @@ func (vx *Vaxis) NewStyledString(s string, defaultStyle Style) *StyledString {
 						b, _ := strconv.Atoi(subs[4])
 						style.UnderlineColor = RGBColor(uint8(r), uint8(g), uint8(b))
 					}
+				case "59":
+					style.UnderlineColor = 0
 				case "90":
 					style.Foreground = IndexColor(8)
 				case "91":
